@@ -42,10 +42,13 @@
      "sp" after the stream-position read (ReadStream limit 0) of the last state page,
      "tp" after the stream-position read of the first stream-phase request,
      "g1" inside MapBroker.Subscribe (hub entry exists, buffering started),
-     "g3" after MapBroker.ReadStream of the live transition.
-   From g3 (g1 for streamless maps) to StopBuffering the code holds pubBufferMu (a
-   positioned delivery blocks and is observably a delivery after the subscribe); an
-   offset-0 delivery in that window is observably the same as one at g1.          *)
+     "g3" after MapBroker.ReadStream of the live transition,
+     "rp" at the hook verifGate("map:replied") right after the live reply is enqueued (buffer locked, before
+          StopBuffering): a positioned delivery made now blocks on pubBufferMu (DeliverBlocked) and proceeds after
+          StopBuffering (Unblock).
+   From g3 (g1 for streamless maps) to the reply there is no gate: a positioned
+   delivery before LockBufferAndReadBuffered is buffered (same as at g3), one after it
+   blocks (same as at rp); an offset-0 delivery there is the same as one at g1.   *)
 EXTENDS MergeOps, TLC
 
 CONSTANTS
@@ -83,7 +86,7 @@ VARIABLES
   wire,        \* FIFO of deliveries handed over by the broker, not yet received by the node
   nops,
   cfg,         \* [mode, kind, filt, sf, ktag, page, ssize]
-  pc,          \* server side of the command in flight: "idle", "sr", "sp", "tp", "g1", "g3"
+  pc,          \* server side of the command in flight: "idle", "sr", "sp", "tp", "g1", "g3", "rp"
   hub,         \* hub entry of the connection exists
   buf,         \* pubSubSync buffer
   sub,         \* live subscription of the connection: [st, pos, ep]
@@ -185,7 +188,7 @@ Change(k, removed) ==
      /\ IF HasStream THEN /\ top' = off /\ win' = Trim(Append(win, e))
                           /\ log' = Append(log, [ep |-> epoch, off |-> off, key |-> k])
                      ELSE UNCHANGED <<top, win, log>>
-     /\ wire' = Append(wire, [id |-> id, key |-> k, off |-> off, ep |-> epoch, rem |-> removed])
+     /\ wire' = Append(wire, [id |-> id, key |-> k, off |-> off, ep |-> epoch, rem |-> removed, blk |-> FALSE])
      /\ UNCHANGED <<epoch, cfg, pc, hub, buf, sub, srv, rd, tr, cl, resubs, sfnow, refreshed, hz, out>>
 
 Publish(k) == CanOp("pub") /\ Change(k, FALSE) /\ step' = [act |-> "Publish", key |-> k, id |-> nops + 1]
@@ -233,13 +236,33 @@ Receive(d) ==
        /\ UNCHANGED <<buf, hub>>
        /\ IF Filtered(d.key) THEN UNCHANGED <<out, cl>> ELSE Emit(PubFrame(d))
 
+\* pc = "rp": the live reply is enqueued, the transition still holds pubBufferMu (LockBufferAndReadBuffered .. StopBuffering):
+\* a positioned delivery blocks in SyncPublication on that lock
+LockedOut(d) == pc = "rp" /\ d.off > 0
+
 Deliver ==
-  /\ wire # <<>>
+  /\ wire # <<>> /\ ~Head(wire).blk /\ ~LockedOut(Head(wire))
   /\ wire' = Tail(wire)
   /\ Receive(Head(wire))
   /\ hz' = IF InWindow THEN hz \cup {"win"} ELSE hz
   /\ UNCHANGED <<state, top, win, epoch, log, nops, cfg, pc, srv, rd, tr, resubs, sfnow, refreshed>>
   /\ step' = [act |-> "Deliver", id |-> Head(wire).id]
+
+\* the delivery enters the node while the buffer is locked: its goroutine parks on pubBufferMu (at most one at a time here)
+DeliverBlocked ==
+  /\ wire # <<>> /\ ~Head(wire).blk /\ LockedOut(Head(wire))
+  /\ wire' = <<[Head(wire) EXCEPT !.blk = TRUE]>> \o Tail(wire)
+  /\ UNCHANGED <<state, top, win, epoch, log, nops, cfg, pc, hub, buf, sub, srv, rd, tr, cl, resubs, sfnow, refreshed, hz, out>>
+  /\ step' = [act |-> "DeliverBlocked", id |-> Head(wire).id]
+
+\* StopBuffering released the lock: the parked delivery re-checks inSubscribe (now 0) and is written to the connection
+Unblocking == pc = "idle" /\ wire # <<>> /\ Head(wire).blk
+Unblock ==
+  /\ Unblocking
+  /\ wire' = Tail(wire)
+  /\ Receive(Head(wire))
+  /\ UNCHANGED <<state, top, win, epoch, log, nops, cfg, pc, srv, rd, tr, resubs, sfnow, refreshed, hz>>
+  /\ step' = [act |-> "Unblock", id |-> Head(wire).id]
 
 ---------------------------------------------------------------------------
 (* broker reads *)
@@ -400,17 +423,24 @@ TransFinish ==
                    IN IF ~m.ok
                         THEN Rollback /\ Emit([t |-> "disc", code |-> DiscInsufficient])
                         ELSE /\ sub' = [st |-> "live", pos |-> latest, ep |-> rd.pos.ep, csr |-> tr.csr]
-                             /\ srv' = NoSrv /\ buf' = <<>> /\ pc' = "idle" /\ UNCHANGED hub
+                             /\ srv' = NoSrv /\ buf' = <<>> /\ pc' = "rp" /\ UNCHANGED hub
                              /\ Emit([t |-> "live", ents |-> ProtoEnts(tr.spubs), pubs |-> ProtoPubs(Visible(m.list)),
                                       off |-> latest, ep |-> rd.pos.ep, rec |-> tr.isrec /\ tr.recov])
        ELSE \* streamless: the buffer is read but offset-0 publications never enter it (as coded)
             /\ sub' = [st |-> "live", pos |-> 0, ep |-> tr.since.ep, csr |-> tr.csr]
-            /\ srv' = NoSrv /\ buf' = <<>> /\ pc' = "idle" /\ UNCHANGED hub
+            /\ srv' = NoSrv /\ buf' = <<>> /\ pc' = "rp" /\ UNCHANGED hub
             /\ Emit([t |-> "live", ents |-> ProtoEnts(tr.spubs), pubs |-> ProtoPubs(Visible(buf)),
                      off |-> 0, ep |-> tr.since.ep, rec |-> FALSE])
   /\ rd' = NoRd /\ tr' = NoTr
   /\ UNCHANGED <<state, top, win, epoch, log, wire, nops, cfg, resubs, sfnow, refreshed, hz>>
   /\ step' = [act |-> "TransFinish"]
+
+\* the rest of the tail: StopBuffering (the subscriber was parked at the hook "map:replied" right after the reply)
+TransStop ==
+  /\ pc = "rp"
+  /\ pc' = "idle"
+  /\ UNCHANGED <<state, top, win, epoch, log, wire, nops, cfg, hub, buf, sub, srv, rd, tr, cl, resubs, sfnow, refreshed, hz, out>>
+  /\ step' = [act |-> "TransStop"]
 
 ---------------------------------------------------------------------------
 (* client decisions outside the command/reply cycle *)
@@ -440,8 +470,10 @@ SubRefresh(changed) ==
             /\ sub' = [sub EXCEPT !.st = "ended"] /\ hub' = FALSE /\ UNCHANGED sfnow
             /\ Emit([t |-> "disc", code |-> DiscBadRequest])
        ELSE IF changed
-       THEN /\ sfnow' = "all" /\ sub' = [sub EXCEPT !.st = "ended"] /\ hub' = FALSE
-            /\ Emit([t |-> "unsub", code |-> UnsubInvalidated])
+       THEN \* the command is answered, then the subscription is ended
+            /\ sfnow' = "all" /\ sub' = [sub EXCEPT !.st = "ended"] /\ hub' = FALSE
+            /\ out' = out \o <<[t |-> "refok"], [t |-> "unsub", code |-> UnsubInvalidated]>>
+            /\ cl' = Client(cl, [t |-> "unsub", code |-> UnsubInvalidated])
        ELSE /\ UNCHANGED <<sfnow, sub, hub>> /\ Emit([t |-> "refok"])
   /\ UNCHANGED <<state, top, win, epoch, log, wire, nops, cfg, pc, buf, srv, rd, tr, resubs, hz>>
   /\ step' = [act |-> "SubRefresh", changed |-> changed]
@@ -457,10 +489,11 @@ PosCheck ==
   /\ step' = [act |-> "PosCheck"]
 
 Next ==
+  IF Unblocking THEN Unblock ELSE     \* the released delivery runs before anything else
   \/ \E k \in Keys : Publish(k) \/ RemoveKey(k) \/ KeyExpiry(k)
   \/ StreamExpiry \/ Clear
-  \/ Deliver \/ PosCheck
-  \/ StateCmd \/ StateLast \/ StateDecide \/ StreamCmd \/ StreamDecide \/ JoinCmd \/ TransRead \/ TransFinish
+  \/ Deliver \/ DeliverBlocked \/ PosCheck
+  \/ StateCmd \/ StateLast \/ StateDecide \/ StreamCmd \/ StreamDecide \/ JoinCmd \/ TransRead \/ TransFinish \/ TransStop
   \/ Snapshot \/ Resub
   \/ \E c \in BOOLEAN : SubRefresh(c)
 
@@ -477,11 +510,12 @@ Quiescent == /\ pc = "idle" /\ wire = <<>>
              /\ \/ cl.ph \in {"live", "gone"}
                 \/ cl.ph = "told" /\ resubs = MaxResub
 
-\* a positioned subscription whose position differs from the stream top with nothing in flight is ended by the periodic
-\* position check (action PosCheck): such a state is not final
-PosValid == HasStream => (sub.ep = epoch /\ sub.pos = top)
+\* a positioned subscription of an earlier epoch (Clear) is ended by the periodic position check (action PosCheck): such
+\* a state is not final.  Within one epoch nothing may be missing: the client holds the state and the server-side position
+\* is the stream top.
+PosValid == HasStream => sub.ep = epoch
 
-C22 == (Quiescent /\ cl.ph = "live" /\ PosValid) => Converged
+C22 == (Quiescent /\ cl.ph = "live" /\ PosValid) => (Converged /\ (HasStream => sub.pos = top))
 \* what TLC proves about the code AS IT IS: convergence outside the unprotected windows recorded in hz
 C22Coded == C22 \/ hz # {}
 
